@@ -9,9 +9,12 @@
       WF v    : every key equals its state's ID, generation >= 1, logical clock >= 1
       VVin v  : every version-vector key is a member id
       CapOK v : the member count is within MaxVersionVectorEntries (default 65535)
+                (VVin / CapOK only guard the version-vector monotonicity theorems; `changed` needs neither)
       reach v : v is built by newClusterView, AddMember of well-formed states (joins), IncrementVersion
                 of a member, in-place status changes, the restart bump of tryJoinSeeds, Snapshot and
                 merges of such views (the property's quantifier; no removals).
+    [view_merge_before_fix] is the same function with `changed` computed as the code did before commit
+    53b1085 (merged vector compared with the already pruned one); it only occurs in the regression Example.
     All theorems are for every skew / strategy / clock value unless a value is written out. *)
 From Coq Require Import List NArith ZArith Lia.
 From stdpp Require Import gmap.
@@ -170,7 +173,8 @@ Theorem C17_vv_monotone_partial sk st now v o :
 Proof. exact (merge_vv_mono sk st now v o). Qed.
 
 (** the guard can be violated by reachable views: with MaxVersionVectorEntries = 1 and two members the
-    prune in recomputeCounts drops a member's entry and the next merge lowers it *)
+    prune in recomputeCounts drops a member's entry and the next merge lowers it (that merge reports
+    changed = true, see C17_changed_sound_regression; the entry is lowered all the same) *)
 Theorem C17_vv_entry_monotone_refuted :
   exists v o k, reach v /\ reach o /\ is_Some (vw_members v !! k) /\
     vget (vw_vv (fst (view_merge 0 0 0 v o))) k < vget (vw_vv v) k.
@@ -185,39 +189,42 @@ Proof. exact (merge_vv_comm sk st now sk' st' now' a b). Qed.
 
 (** ** changed *)
 
-(** sound: the members map (full states) or any version-vector counter differs => changed *)
-Theorem C17_changed_sound_partial sk st now v o :
-  VVin v -> CapOK (fst (view_merge sk st now v o)) ->
+(** sound, for EVERY pair of views (no guard, not even well-formedness): the members map (full states)
+    or any version-vector counter differs => changed.  The merged vector is compared with the vector
+    as it was before recomputeCounts pruned it, so entries dropped by the prune (keys that are no
+    members; truncation to MaxVersionVectorEntries) are reported. *)
+Theorem C17_changed_sound sk st now v o :
   vw_members (fst (view_merge sk st now v o)) <> vw_members v \/
   (exists k, vget (vw_vv (fst (view_merge sk st now v o))) k <> vget (vw_vv v) k) ->
   snd (view_merge sk st now v o) = true.
 Proof. exact (merge_changed_sound sk st now v o). Qed.
 
-(** and exact: changed iff members, version vector, epoch, view timestamp or protocol version differ *)
-Theorem C17_changed_exact_partial sk st now v o :
-  VVin v -> CapOK (fst (view_merge sk st now v o)) ->
-  (snd (view_merge sk st now v o) = true <->
-   (vw_members (fst (view_merge sk st now v o)) <> vw_members v \/
-    ~ (forall k, vget (vw_vv (fst (view_merge sk st now v o))) k = vget (vw_vv v) k) \/
-    vw_epoch (fst (view_merge sk st now v o)) <> vw_epoch v \/
-    vw_ts (fst (view_merge sk st now v o)) <> vw_ts v \/
-    vw_proto (fst (view_merge sk st now v o)) <> vw_proto v)).
-Proof. exact (merge_changed_exact sk st now v o). Qed.
+(** and exact, for every pair of views: changed iff members, version vector (as a function id -> counter),
+    epoch, view timestamp or protocol version differ.  In particular an entry that the prune drops and
+    the argument view brings back with the same counter is, correctly, no change. *)
+Theorem C17_changed_exact sk st now v o :
+  snd (view_merge sk st now v o) = true <->
+  (vw_members (fst (view_merge sk st now v o)) <> vw_members v \/
+   ~ (forall k, vget (vw_vv (fst (view_merge sk st now v o))) k = vget (vw_vv v) k) \/
+   vw_epoch (fst (view_merge sk st now v o)) <> vw_epoch v \/
+   vw_ts (fst (view_merge sk st now v o)) <> vw_ts v \/
+   vw_proto (fst (view_merge sk st now v o)) <> vw_proto v).
+Proof. exact (merge_changed_exact_vget sk st now v o). Qed.
 
-(** unguarded it is false for reachable views: the cap-exceeded merge above lowers an entry and
-    reports changed = false (the comparison is made against the already pruned vector) *)
-Theorem C17_changed_sound_refuted :
-  exists v o k, reach v /\ reach o /\
-    vget (vw_vv (fst (view_merge 0 0 0 v o))) k <> vget (vw_vv v) k /\
-    snd (view_merge 0 0 0 v o) = false.
-Proof. exact changed_sound_refuted. Qed.
-
-(** and for a version-vector key that is not a member (RemoveMember(self); IncrementVersion(self)) *)
-Theorem C17_changed_sound_nonmember_key_refuted :
-  WF w_nm /\ WF w_nm_o /\ ~ VVin w_nm /\
-  vget (vw_vv (fst (view_merge 0 0 0 w_nm w_nm_o))) idb < vget (vw_vv w_nm) idb /\
-  snd (view_merge 0 0 0 w_nm w_nm_o) = false.
-Proof. exact changed_unsound_nonmember_key. Qed.
+(** the hypothesis of C17_changed_sound is met by the two views on which the code before commit 53b1085
+    failed (regression): [view_merge_before_fix] builds the same view but returned changed = false
+    (a) on reachable views when the prune truncates (MaxVersionVectorEntries = 1, two members) and
+    (b) for a version-vector key that is no member (RemoveMember(b); IncrementVersion(b)): the entry of
+    the NON-member b is dropped - no member's entry is lowered - and the merge now says so. *)
+Example C17_changed_sound_regression :
+  (forall sk st now v o, fst (view_merge_before_fix sk st now v o) = fst (view_merge sk st now v o)) /\
+  (exists v o k, reach v /\ reach o /\
+     vget (vw_vv (fst (view_merge 0 0 0 v o))) k <> vget (vw_vv v) k /\
+     snd (view_merge 0 0 0 v o) = true /\ snd (view_merge_before_fix 0 0 0 v o) = false) /\
+  (WF w_nm /\ WF w_nm_o /\ ~ VVin w_nm /\ vw_members w_nm !! idb = None /\
+   vget (vw_vv (fst (view_merge 0 0 0 w_nm w_nm_o))) idb < vget (vw_vv w_nm) idb /\
+   snd (view_merge 0 0 0 w_nm w_nm_o) = true /\ snd (view_merge_before_fix 0 0 0 w_nm w_nm_o) = false).
+Proof. exact changed_unsound_before_fix. Qed.
 
 (** merging a view with its own snapshot changes neither members, vector, epoch nor timestamp *)
 Theorem C17_self_merge sk st now v :
@@ -291,8 +298,6 @@ Print Assumptions C17_vv_entry_monotone_partial.
 Print Assumptions C17_vv_monotone_partial.
 Print Assumptions C17_vv_entry_monotone_refuted.
 Print Assumptions C17_vv_order_independent.
-Print Assumptions C17_changed_sound_partial.
-Print Assumptions C17_changed_exact_partial.
-Print Assumptions C17_changed_sound_refuted.
-Print Assumptions C17_changed_sound_nonmember_key_refuted.
+Print Assumptions C17_changed_sound.
+Print Assumptions C17_changed_exact.
 Print Assumptions C17_self_merge.
